@@ -80,11 +80,38 @@ fn page_steps<S: PageSize>(s: u64, e: u64) -> Vec<i128> {
         None => vec![PANIC],
     }
 }
+/// forward/backward_checked, cross-checked against the other entry points of `Step` that std's
+/// ranges use (forward / forward_unchecked / backward / backward_unchecked, and Range::next for
+/// single steps): where the checked variant returns a value, all of them must return the same one
+fn step_fwd_all<T: Step + Copy + PartialEq>(start: T, n: usize) -> Option<T> {
+    let r = Step::forward_checked(start, n);
+    if let Some(x) = r {
+        if Step::forward(start, n) != x { panic!("Step::forward disagrees with forward_checked"); }
+        if unsafe { Step::forward_unchecked(start, n) } != x { panic!("Step::forward_unchecked disagrees with forward_checked"); }
+        if n == 1 {
+            let mut rg = start..x;
+            if rg.next() != Some(start) || rg.start != x { panic!("Range::next disagrees with forward_checked"); }
+        }
+    }
+    r
+}
+fn step_bwd_all<T: Step + Copy + PartialEq>(start: T, n: usize) -> Option<T> {
+    let r = Step::backward_checked(start, n);
+    if let Some(x) = r {
+        if Step::backward(start, n) != x { panic!("Step::backward disagrees with backward_checked"); }
+        if unsafe { Step::backward_unchecked(start, n) } != x { panic!("Step::backward_unchecked disagrees with backward_checked"); }
+        if n == 1 {
+            let mut rg = x..start;
+            if rg.next_back() != Some(x) || rg.end != x { panic!("Range::next_back disagrees with backward_checked"); }
+        }
+    }
+    r
+}
 fn page_fwd<S: PageSize>(s: u64, n: u64) -> Vec<i128> {
-    ro(catch(|| Step::forward_checked(pg::<S>(s), n as usize).map(|p| p.start_address().as_u64())))
+    ro(catch(|| step_fwd_all(pg::<S>(s), n as usize).map(|p| p.start_address().as_u64())))
 }
 fn page_bwd<S: PageSize>(s: u64, n: u64) -> Vec<i128> {
-    ro(catch(|| Step::backward_checked(pg::<S>(s), n as usize).map(|p| p.start_address().as_u64())))
+    ro(catch(|| step_bwd_all(pg::<S>(s), n as usize).map(|p| p.start_address().as_u64())))
 }
 fn frame_containing<S: PageSize>(a: u64) -> Vec<i128> {
     r(catch(|| PhysFrame::<S>::containing_address(pa(a)).start_address().as_u64()))
@@ -415,8 +442,8 @@ fn run_inner(c: &[u64]) -> Vec<i128> {
             None => vec![PANIC],
         },
         [10, s, e] => steps(Step::steps_between(&va(*s), &va(*e))),
-        [11, s, n] => ro(catch(|| Step::forward_checked(va(*s), *n as usize).map(|v| v.as_u64()))),
-        [12, s, n] => ro(catch(|| Step::backward_checked(va(*s), *n as usize).map(|v| v.as_u64()))),
+        [11, s, n] => ro(catch(|| step_fwd_all(va(*s), *n as usize).map(|v| v.as_u64()))),
+        [12, s, n] => ro(catch(|| step_bwd_all(va(*s), *n as usize).map(|v| v.as_u64()))),
         [13, a, b] => r(catch(|| (va(*a) + *b).as_u64())),
         [14, a, b] => r(catch(|| (va(*a) - *b).as_u64())),
         [15, a, b] => r(catch(|| va(*a) - va(*b))),
@@ -492,10 +519,10 @@ fn run_inner(c: &[u64]) -> Vec<i128> {
             &PageTableIndex::new(*e as u16),
         )),
         [47, s, n] => ro(catch(|| {
-            Step::forward_checked(PageTableIndex::new(*s as u16), *n as usize).map(|v| idx(v) as u64)
+            step_fwd_all(PageTableIndex::new(*s as u16), *n as usize).map(|v| idx(v) as u64)
         })),
         [48, s, n] => ro(catch(|| {
-            Step::backward_checked(PageTableIndex::new(*s as u16), *n as usize).map(|v| idx(v) as u64)
+            step_bwd_all(PageTableIndex::new(*s as u16), *n as usize).map(|v| idx(v) as u64)
         })),
         [49, l] => {
             let lv = level(*l);
